@@ -813,7 +813,8 @@ def check_reset(model, R, P):
     others = [n for n in stmts if n not in stores and not (isinstance(n, ast.Assign) and all(isinstance(t, ast.Name) for t in n.targets))]
     ok = False
     if len(stores) == 1:
-        v = inline_expr(z.node, stores[0].value)
+        from .core import expand_expression_functions
+        v = expand_expression_functions(model, z.mod, inline_expr(z.node, stores[0].value))
         calls = [c for c in ast.walk(v) if isinstance(c, ast.Call) and model.resolve(z.mod, c.func) in ('numpy.zeros_like', 'numpy.zeros')]
         ok = len(calls) == 1 and bool(calls[0].args) and norm(calls[0].args[0]) in ('self.data', 'self.shape', 'self.data.shape') and norm(stores[0].targets[0].value) == 'self'
         if ok and model.resolve(z.mod, calls[0].func) == 'numpy.zeros':
